@@ -74,7 +74,10 @@ void ApplyRule::AddRule(const String& sourceType, const String& targetType, cons
 	ApplyRule::Ptr rule = new ApplyRule(name, expression, filter, package, fkvar, fvvar, fterm, ignoreOnError, di, scope);
 	auto& rules (m_Rules[Type::GetByName(sourceType).get()]);
 
-	if (!AddTargetedRule(rule, *actualTargetType, rules)) {
+	/* A for-loop variable named like the target hides it from the filter: such a filter must be evaluated. */
+	bool shadowsTarget = fkvar == "host" || fkvar == "service" || fvvar == "host" || fvvar == "service";
+
+	if (shadowsTarget || !AddTargetedRule(rule, *actualTargetType, rules)) {
 		rules.Regular[Type::GetByName(*actualTargetType).get()].emplace_back(std::move(rule));
 	}
 }
